@@ -699,7 +699,7 @@ func genScriptSCION(r *lib.Rng, nts bool) []recipe {
 			switch r.Intn(5) {
 			case 0:
 				s[i] = recipe{kind: 30 + r.Intn(3), p1: int64(r.Intn(2)), p2: int64(r.Intn(1 << 16))}
-			case 2:
+			case 2, 3:
 				// host addresses that resemble the queried server's (the client's) without being it
 				s[i] = recipe{kind: 36, p1: int64(r.Intn(nHostForms) + 10*lib.Pick(r, 0, 0, 1)), p2: int64(r.Intn(1 << 16))}
 			case 1:
